@@ -150,6 +150,61 @@ def replay_behaviour(tid, states, interval):
     return run, rec, drift
 
 
+T_PROJ = ("[tt |-> tt, timer |-> timer, conn |-> conn, "
+          "pings |-> [i \\in 1..Len(pings) |-> <<pings[i].conn, pings[i].sent, pings[i].lost>>], "
+          "dropped |-> [i \\in 1..Len(dropped) |-> <<dropped[i].conn, dropped[i].at>>]]")
+
+
+def real_enabled(run, interval, horizon, max_conns, stopped):
+    """Environment actions the *real* objects offer right now (the walk does not consult the model)."""
+    now = int(reactor.seconds())
+    acts = []
+    due = [dc for dc in run._timer_calls() if dc.getTime() <= reactor.seconds()]
+    if due:
+        acts.append(("TimerFires", now))
+    elif now < horizon:
+        acts += [("Tick", now + 1)] * 3
+    if run.live:
+        out = run.L.conn.out if run.L.conn is not None else []
+        for k, p in enumerate(run.pings, start=1):
+            if p["conn"] == run.conn_no and not p["answered"] and now < p["sent"] + interval and \
+                    any(isinstance(r, Ping) and r.ping_id == p["id"] for r in out):
+                acts += [("Pong", k)] * 3
+        acts.append(("ConnLost", run.conn_no))
+    elif not stopped and run.conn_no < max_conns:
+        acts += [("ConnMade", run.conn_no + 1)] * 2
+    if not stopped:
+        acts.append(("Stop", now))
+    return acts
+
+
+def real_walk(tid, interval, rng, horizon, max_conns, nsteps=40):
+    """Code -> spec: a seeded random walk over what the real Leader Manager + TrafficTimer can do, recorded step by step
+    (action + projection) for validation against DilationTimer.tla, and judged by the observer like every other run."""
+    run = TimerRun(interval, throttle=[(), ("L",), ("F",), ("L", "F")][tid % 4])
+    stopped = False
+    lines, snaps = [], []
+    timers_max = 0
+    for _ in range(nsteps):
+        acts = real_enabled(run, interval, horizon, max_conns, stopped)
+        if not acts:
+            break
+        la = rng.choice(acts)
+        run.do(la)
+        if la[0] == "Stop":
+            stopped = True
+        timers_max = max(timers_max, len(run._timer_calls()))
+        pr = run.projection()
+        lines.append({"a": list(la), "proj": pr})
+        snaps.append({"now": int(reactor.seconds()), "conn": run.conn_no if run.live else 0, "stopped": stopped, "timer": pr["timer"]})
+    rec = {"tid": tid, "I": interval, "now": int(reactor.seconds()), "conn": run.conn_no if run.live else 0, "stopped": stopped,
+           "pings": [{"conn": p["conn"], "sent": p["sent"], "answered": p["answered"], "lost": p["lost"]} for p in run.pings],
+           "dropped": run.dropped, "timer": run.projection()["timer"], "maxTimers": timers_max, "snaps": snaps,
+           "internal": run.errors + [repr(e)[:100] for e in run.w.logged] + [repr(e)[:100] for s_ in run.w.sides.values() for e in s_.errors]}
+    run.w.close()
+    return run, rec, lines
+
+
 def public_api_case(tid, interval, responsive, nintervals=5):
     """The same question asked of the whole stack: two real wormholes, `w.dilate(ping_interval=interval)` on both, the real
     Connector / DilatedConnectionProtocol (harness Noise stand-in) over the simulated TCP fabric.  Once connected the Follower
@@ -285,6 +340,32 @@ def run(prop, tier):
                     ndrift += 1
                     if len(cov["drift"]) < 6:
                         cov["drift"].append(dict(drift, tid=tid, config=name, goal=g))
+        # code -> spec: seeded random walks over the real objects, validated by TLC against DilationTimer.tla
+        rng = random.Random(seed * 7919 + 16)
+        tv = {"walks": 0, "accepted": 0, "rejected": []}
+        for name, consts in (("I2", dict(I=2, Horizon=30, MaxConns=4)), ("I3", dict(I=3, Horizon=36, MaxConns=4))):
+            traces = {}
+            for _ in range(40 if quick else 400):
+                tid += 1
+                run_, rec, lines = real_walk(tid, consts["I"], rng, consts["Horizon"], consts["MaxConns"])
+                rec["origin"], rec["config"] = "real-walk", name
+                records.append(rec)
+                meta[tid] = {"schedule": run_.schedule, "I": consts["I"], "throttle": list(run_.throttle)}
+                traces[tid] = lines
+            res, r = common.trace_validate(wd, "DilationTimer", consts, traces, T_PROJ, "MC_C16_trace_" + name)
+            for t, (reached, total) in sorted(res.items()):
+                tv["walks"] += 1
+                if reached == total:
+                    tv["accepted"] += 1
+                else:
+                    ndrift += 1
+                    if len(tv["rejected"]) < 6:
+                        tv["rejected"].append({"tid": t, "config": name, "matched_lines": reached, "of": total,
+                                               "next_line": traces[t][reached] if reached < total else None,
+                                               "schedule": meta[t]["schedule"][:reached + 1]})
+        cov["trace_validation"] = dict(tv, rule="each walk = up to 40 environment steps chosen among what the real Manager/TrafficTimer "
+                                       "offers; accepted = DilationTimer.tla has a behaviour with the same actions and the same projected "
+                                       "state (TrafficTimer state, deadline, connection, pings, monitor drops) after every step")
         # family: the interval the application configures through the public API is the one the monitor keeps
         n = 0
         for interval in ((5, 47) if quick else (2, 5, 29, 47, 120)):
